@@ -73,7 +73,7 @@ def full_docs():
     bp = {"id": "verif/x", "version": "1.2.3", "name": "N", "homepage": "https://h", "description": "D", "keywords": ["a", "b"],
           "licenses": [{"type": "MIT", "uri": "https://l"}, {}], "clear-env": True, "sbom-formats": [SBOMS[0], SBOMS[2]]}
     return {
-        "buildpack-component": {"api": "0.10", "buildpack": copy.deepcopy(bp), "stacks": [{"id": "*"}, {"id": "io.s", "mixins": ["build:jq", "w"]}],
+        "buildpack-component": {"api": "0.10", "buildpack": copy.deepcopy(bp), "stacks": [{"id": "*", "mixins": ["build:git", "run:curl"]}, {"id": "io.s", "mixins": ["build:jq", "w"]}, {"id": "*"}],
                                 "targets": [{"os": "linux", "arch": "arm", "variant": "v8", "distros": [{"name": "ubuntu", "version": "24.04"}, {"name": "d", "version": "1"}]}, {}],
                                 "metadata": META},
         "buildpack-composite": {"api": "0.10", "buildpack": copy.deepcopy(bp), "order": [{"group": [{"id": "a/b", "version": "0.0.1", "optional": True}, {"id": "c", "version": "1.0.0"}]}, {"group": [{"id": "d", "version": "2.0.0"}]}], "metadata": META},
@@ -143,6 +143,11 @@ def valid_docs():
     out = []
     for fmt, full in full_docs().items():
         out.append((fmt, full, "full"))
+        if fmt.startswith("buildpack"):
+            # optional text keys present but empty: present is not omitted
+            d = copy.deepcopy(full)
+            d["buildpack"].update({"name": "", "homepage": "", "description": "", "keywords": [""]})
+            out.append((fmt, d, "empty strings for the optional text keys"))
         # minimal: every optional key removed everywhere
         mini = copy.deepcopy(full)
         changed = True
@@ -278,6 +283,20 @@ def structural_mutants(fmt, doc):
             d = copy.deepcopy(doc)
             get(d, tp[:-1])[tp[-1]] = Raw(tagged)
             out.append((d, f"table-given-as-{name}:{names_only(tp)}", f"table at {'/'.join(map(str, tp))} replaced by a {name}"))
+    # arrays of scalars given as one scalar (the pre-0.9 single-string forms and friends)
+    def walk_scalar_arrays(node, path):
+        items = node.items() if isinstance(node, dict) else enumerate(node)
+        for k, v in items:
+            if isinstance(v, (Meta, Raw)):
+                continue
+            if isinstance(v, list) and (not v or all(isinstance(e, str) for e in v)):
+                for name, tagged in (("string", ("s", v[0] if v else "x")), ("integer", ("i", 1)), ("boolean", ("b", True))):
+                    d = copy.deepcopy(doc)
+                    get(d, path)[k] = Raw(tagged)
+                    out.append((d, f"array-given-as-{name}:{names_only(path + (k,))}", f"array at {'/'.join(map(str, path + (k,)))} replaced by a {name}"))
+            elif isinstance(v, (dict, list)):
+                walk_scalar_arrays(v, path + (k,))
+    walk_scalar_arrays(doc, ())
     # arrays of tables given as a single table; free-form metadata given as a non-table
     def walk(node, path):
         items = node.items() if isinstance(node, dict) else enumerate(node)
@@ -412,7 +431,7 @@ def run(ctx):
     res.cov("mutants", n_mut)
     res.cov("mutants_by_kind", kinds)
     res.cov("distinct_nontrivial", n_mut)
-    res.cov("rule", "valid corpus: for each of 7 formats the full document, the minimal document and, one table at a time, every subset of that table's optional keys removed; mutants (each applied to a valid document, one at a time): zzz=1 inserted into every table / array-of-tables element outside metadata, every required key deleted, every scalar (incl. string-array elements) retyped to each other kind, to [], to {} and to a table keyed by its own value, order added to a component with stacks/targets, targets/stacks added to a composite; on the full and the minimal document additionally: every word of the spec's vocabulary (keys of all formats, earlier API versions, sibling descriptors) inserted as an unknown key into every table, every required key renamed to every vocabulary word, every table position given as array / string / datetime, every array of tables given as a single table, free-form metadata given as datetime / string / array / integer. Valid => accepted, classified and every field equal to the document with spec defaults; mutant => rejected. non-trivial = mutants")
+    res.cov("rule", "valid corpus: for each of 7 formats the full document, the minimal document and, one table at a time, every subset of that table's optional keys removed; mutants (each applied to a valid document, one at a time): zzz=1 inserted into every table / array-of-tables element outside metadata, every required key deleted, every scalar (incl. string-array elements) retyped to each other kind, to [], to {} and to a table keyed by its own value, order added to a component with stacks/targets, targets/stacks added to a composite; on the full and the minimal document additionally: every word of the spec's vocabulary (keys of all formats, earlier API versions, sibling descriptors) inserted as an unknown key into every table, every required key renamed to every vocabulary word, every table position given as array / string / datetime, every array of tables given as a single table, every array of strings given as a string / integer / boolean, free-form metadata given as datetime / string / array / integer. Valid => accepted, classified and every field equal to the document with spec defaults; mutant => rejected. non-trivial = mutants")
     res.cov("bound", {"mutated_valid_documents": "all" if ctx.thorough else "full + minimal + every 5th case"})
     res.cov("exhaustive", True)
     res.assume("schema = Buildpack API 0.10 as restated in DESIGN C08; pinned keys (distro name/version, store.metadata, platform.os when [platform] is given, non-empty order/group) are always present and never deleted")
